@@ -50,7 +50,8 @@ def main():
         dest_abs = dest if dest.startswith('/') else os.path.join(wt, dest)
         os.makedirs(os.path.dirname(dest_abs), exist_ok=True)
         shutil.copy(f'{src}/demo.rs', dest_abs)
-        cmd = meta.get('demo_cmd', '').split('\n')[0].split('#')[0].strip()
+        lines = [l for l in meta.get('demo_cmd', '').split('\n') if l.strip()]
+        cmd = next((l for l in lines if 'cargo test' in l or 'cargo run' in l), lines[0] if lines else '').split('#')[0].strip()
         cmd = re.sub(r'^cd\s+\S+\s*&&\s*', '', cmd)
         if 'cargo build -p chess-bot' in cmd and '&&' in cmd:
             pass
